@@ -56,8 +56,10 @@ NoStopWordLeft == pc = "done" => \A g \in Range(out) : \A q \in DOMAIN g : g[q] 
 GramsAreFlatAndBounded == pc = "done" => \A g \in Range(out) : Len(g) \in minn .. maxn
 
 \* vocabulary of a corpus = sorted distinct grams; tuple order must be the order of the space-joined strings.
-\* Characters: a token is a sequence over 1..2, the space is 0 (smaller than every word character).
-Chars(tok) == CASE tok = 1 -> <<1>> [] tok = 2 -> <<1, 1>> [] tok = 3 -> <<1, 2>> [] OTHER -> <<2>>
+\* Characters: a token is a sequence over 1..4 (A < B < a < b), the space is 0 (smaller than every word character).
+\* Tokens 1..4 are aa, aaa, aab, bb (or, with lowercase=False, AA, AAA, AAB, BB and 5..8 their lower-case twins).
+Chars(tok) == CASE tok = 1 -> <<1>> [] tok = 2 -> <<1, 1>> [] tok = 3 -> <<1, 2>> [] tok = 4 -> <<2>>
+                [] tok = 5 -> <<3>> [] tok = 6 -> <<3, 3>> [] tok = 7 -> <<3, 4>> [] OTHER -> <<4>>
 RECURSIVE Join(_)
 Join(g) == IF Len(g) = 0 THEN <<>> ELSE IF Len(g) = 1 THEN Chars(g[1]) ELSE Chars(g[1]) \o <<0>> \o Join(Tail(g))
 SeqLess(s, t) == \/ \E q \in 1 .. Min2(Len(s), Len(t)) : s[q] < t[q] /\ \A r \in 1 .. q - 1 : s[r] = t[r]
@@ -65,6 +67,6 @@ SeqLess(s, t) == \/ \E q \in 1 .. Min2(Len(s), Len(t)) : s[q] < t[q] /\ \A r \in
 TokLess(a, b) == SeqLess(Chars(a), Chars(b))
 GramLess(g, h) == \/ \E q \in 1 .. Min2(Len(g), Len(h)) : TokLess(g[q], h[q]) /\ \A r \in 1 .. q - 1 : g[r] = h[r]
                   \/ (Len(g) < Len(h) /\ \A r \in 1 .. Len(g) : g[r] = h[r])
-AllGrams == UNION {[1 .. k -> 1 .. 4] : k \in 1 .. 3}
+AllGrams == UNION {[1 .. k -> 1 .. 8] : k \in 1 .. 3}
 TupleOrderIsJoinedOrder == \A g, h \in AllGrams : GramLess(g, h) <=> SeqLess(Join(g), Join(h))
 =============================================================================
